@@ -11,6 +11,8 @@ Definition impl_fixes : fixes :=
   {| fx1 := true; fx2 := true; fx3 := true; fx4 := true; fx5 := true; fx6 := true; fx7 := true; fx8 := true;
      fx9 := true;     (* C19-F9 repaired by fix: commit b37641c *)
      fx10 := true;    (* C19-F10 repaired by fix: commit 9709c71 *)
+     fx12 := false;   (* C19-F12 is open: fixes/C19-F12.diff *)
+     fx13 := false;   (* C19-F13 is open: fixes/C19-F13.diff *)
      fx18 := true |}.
 
 Definition memn (l : list nat) (n : nat) : bool := existsb (Nat.eqb n) l.
@@ -292,3 +294,12 @@ Definition check_misc (impl : fixes) (c : mcase) : verdict :=
 Inductive wlcase := WL (delivered : list bool).
 Definition check_wloop (impl : fixes) (c : wlcase) : verdict :=
   match c with WL l => {| v_corr := forallb (fun b => b) l; v_prop := forallb (fun b => b) l; v_guards := [] |} end.
+
+(** ** kubernetes provider: informer callbacks ending in updateStatus *)
+Record k8case := { k8_tries : list us_try; k8_obs : res nat }.
+Definition tr parts patch get_ok := {| t_parts := parts; t_patch := patch; t_get_ok := get_ok |}.
+Definition k8c tries obs := {| k8_tries := tries; k8_obs := obs |}.
+Definition check_k8s (impl : fixes) (c : k8case) : verdict :=
+  {| v_corr := res_eqb Nat.eqb (update_status impl (k8_tries c)) (k8_obs c);
+     v_prop := negb (is_panic (k8_obs c));
+     v_guards := guards [(12%Z, guard_F12 impl (k8_tries c)); (13%Z, guard_F13 impl (k8_tries c))] |}.
